@@ -75,3 +75,76 @@ def register(R):
         return out
     R.tasks.append(Structural('structural:C01-merge-control-constructors-only-add-flags', ('C01',), flag_only,
                               note='each merge-control tag constructor is exactly `_make_node(loader, node, kwargs={<its flag>})`: default node type (type deduction from the content), no data transformation'))
+
+
+def register_dump(R):
+    """C18: the data path of a dump that is within reach: which flags are saved, how metadata is decoded back into
+    constructor keywords.  (The elision logic of _node_representer filters a mapping of symbolic shape and drives the PyYAML
+    emitter: bounded stand-in.)"""
+    N = 'awesomeyaml/nodes/node.py::'
+
+    def copy_copy(it, a, kw, n, fr):
+        v = it.sv(a[0], n)
+        r = it.run.alloc('dict')
+        it.heap.put_m(r, it.heap.m(sym.r_of(v.t)))
+        return SV(sym.mk_ref(r), hint=frozenset(['dict']))
+    R.opaque['copy.copy'] = copy_copy
+
+    def info_ens(c):
+        s = c.ref('self')
+        m = c.post.m(r_of(c.rt))
+        md = S.md(c.pre, s)
+        k = z3.Const('!ik', Val)
+        flags = {'priority': '_priority', 'delete': '_delete', 'allow_new': '_allow_new', 'safe': '_safe'}
+        out = [(f'C18.saved-{nm}-is-the-explicit-flag', z3.And(m.has(sym.mk_str(nm)), m.get(sym.mk_str(nm)) == c.pre.get(f, s))) for nm, f in flags.items()]
+        out.append(('C18.user-metadata-is-saved-unchanged', S.FA([k], z3.Implies(z3.And(md.has(k), z3.And([k != sym.mk_str(nm) for nm in flags])), z3.And(m.has(k), m.get(k) == md.get(k))))))
+        out.append(('C18.node-keeps-its-own-metadata-object', z3.And(r_of(c.rt) != r_of(c.pre.get('_metadata', s)), S.md(c.post, s).eq(md))))
+        return out
+
+    R.add(Contract(N + 'ConfigNode.ayns.get_node_info_to_save', [P.node('self', 'ConfigNode')],
+                   requires=lambda c: [('metadata-is-a-dict', z3.And(is_ref(c.pre.get('_metadata', c.ref('self'))), r_of(c.pre.get('_metadata', c.ref('self'))) > 0,
+                                                                    S.md(c.pre, c.ref('self')).len >= 0))],
+                   pure=True, ensures=[('info', info_ens)], result=P.map('result', ), props=('C18',), opts={'no_search': True},
+                   note='what a dump starts from: the user metadata plus the four EXPLICIT flags of the node'))
+
+    # _decode_metadata: special names become constructor keywords, the rest stays user metadata
+    SPECIAL = ['idx', 'priority', 'delete', 'allow_new', 'source_file', 'safe']
+    Unpickled = z3.Function('Unpickled', z3.StringSort(), sym.I)
+
+    def loads(it, a, kw, n, fr):
+        # pickle.loads(bytes.fromhex(text)): the mapping that was encoded (assumed: pickle round-trips dicts of literals)
+        r = it.run.alloc('dict')
+        it.heap.put_m(r, it.spec_extra['encoded_map'])
+        return SV(sym.mk_ref(r), hint=frozenset(['dict']))
+    R.opaque['pickle.loads'] = loads
+    R.opaque['bytes.fromhex'] = lambda it, a, kw, n, fr: OpaqueV('bytes')
+
+    def dec_setup(it, fr, sc):
+        m = MapT.fresh('encoded')
+        kk = z3.Const('!ek', Val)
+        it.run.assume(z3.And(m.len >= 0, z3.ForAll([kk], z3.And(z3.Select(m.pos, kk) >= -1, z3.Select(m.pos, kk) < m.len))))
+        it.spec_extra['encoded_map'] = m
+
+    def dec_ens(c):
+        M = c.x['encoded_map']
+        res = c.post.m(r_of(c.rt))
+        out = []
+        for s_ in SPECIAL:
+            k = sym.mk_str(s_)
+            out.append((f'C18.{s_}-becomes-a-constructor-keyword-iff-encoded', z3.And(res.has(k) == M.has(k), z3.Implies(M.has(k), res.get(k) == M.get(k)))))
+        rest = c.post.m(r_of(res.get(sym.mk_str('metadata'))))
+        kq = z3.Const('!dk', Val)
+        out.append(('C18.everything-else-stays-user-metadata', z3.And(res.has(sym.mk_str('metadata')),
+                    S.FA([kq], z3.Implies(z3.And([kq != sym.mk_str(s_) for s_ in SPECIAL]), z3.And(rest.has(kq) == M.has(kq), z3.Implies(M.has(kq), rest.get(kq) == M.get(kq))))),
+                    z3.And([z3.Not(rest.has(sym.mk_str(s_))) for s_ in SPECIAL]))))
+        return out
+
+    R.add(Contract(Y + '_decode_metadata', [P.val('encoded', 'str')], requires=lambda c: [('non-empty', z3.Length(sym.s_of(c['encoded'])) > 0)],
+                   modifies=lambda c: [], ensures=[('decode', dec_ens)], result=P.map('result'), props=('C18', 'C01'),
+                   opts={'setup': dec_setup, 'no_search': True, 'no_frame': True},
+                   note='relative to: pickle.loads(bytes.fromhex(_encode_metadata(m))) == m (assumed)'))
+
+
+def _reg_all(R):
+    register(R)
+    register_dump(R)
